@@ -40,6 +40,8 @@ type cliScen struct {
 	policy string
 	tier   string
 	tok    int
+	stepNo int
+	total  int
 }
 
 func (s *cliScen) newTok() string { s.tok++; return strconv.Itoa(s.tok) }
@@ -246,6 +248,13 @@ func (s *cliScen) walkStep() {
 	}
 	nops := len(r.ops)
 	r.mu.Unlock()
+	// stop-causing actions are mostly kept for the later part of a walk, so that replies, cancellations
+	// and deadlines race with live operations first
+	early := s.stepNo*2 < s.total && !g.chance(1, 5)
+	s.stepNo++
+	if early {
+		f.wClose, f.wFeedErr, f.wFeedBad = 0, 0, 0
+	}
 	acts := []act{
 		{f.wReply, func() { s.feedRandomRecord(0) }},
 		{f.wJunk, func() { s.feedRandomRecord(1) }},
@@ -430,6 +439,7 @@ func (s *cliScen) run(idx int) {
 		return
 	}
 	n := s.f.steps/2 + s.g.intn(s.f.steps)
+	s.total = n
 	for i := 0; i < n; i++ {
 		s.walkStep()
 	}
